@@ -67,7 +67,7 @@ def obj_code_stage(stage, prev, show_code_stage, kind):
     return f"{stage[0]},{prev}:{body}"
 
 
-def compare_object(ctx, kind, data, text, seqs, code, prevs, lens, frames, label, helpers, with_spec=True):
+def compare_object(ctx, kind, data, text, seqs, code, prevs, lens, frames, label, helpers, slack=0, bounds=()):
     """code: per schedule the stage list [(cur, frames) | 'err:..']; prevs: per schedule the previous_position
     after every poll that returned"""
     show_code_stage, canon_model, fl_rows = helpers
@@ -86,24 +86,26 @@ def compare_object(ctx, kind, data, text, seqs, code, prevs, lens, frames, label
             models["asIs"] = [canon_model(r) for r in drive(ctx, f"rpx asIs {hexs(data)}", evs)]
         spec = drive(ctx, f"xspecp {lst(lens)}", evs)
     else:
-        models = {"lmp": [canon_model(r) for r in drive(ctx, f"rpl {hexs(data)}", evs)]}
+        models = {"repaired": [canon_model(r) for r in drive(ctx, f"rplv repaired {hexs(data)}", evs)]}
+        if not all(c == mm for c, mm in zip(code_s, models["repaired"])):
+            models["asIs"] = [canon_model(r) for r in drive(ctx, f"rplv asIs {hexs(data)}", evs)]
         spec = drive(ctx, f"lspecp {lst(lens)}", evs)
     agreeing = [v for v, m in models.items() if all(c == mm for c, mm in zip(code_s, m))]
     ctx.count(len(seqs), branch=f"{kind}:object-positions-vs-rpRun")
     if agreeing:
         ctx.hit(f"{kind}:object-agrees-with-model={agreeing[0]}")
     else:
-        v0 = "repaired" if kind == "xyz" else "lmp"
+        v0 = "repaired"
         for sq, c, m in zip(seqs, code_s, models[v0]):
             if c != m:
                 ctx.disagree({"fn": f"ReadAndProcessOnTheFly({kind}) current/previous_position vs rpRun[{v0}]",
                               "label": label, "text": text, "cuts": sq}, c, m)
                 break
-    if not with_spec:
-        return
     # the position spec (right-hand side of rp_xyz_exact_pos / rp_lmp_exact_pos) against the implementation
     exp_fr = ([fl_rows(f) for f in frames] if kind == "xyz" else [(fl_rows(c), fl_rows(b)) for c, b in frames])
     for sq, st, sp in zip(seqs, code, spec):
+        if slack and any(b - slack <= c <= b - 2 for c in sq for b in bounds[1:]):
+            continue     # outside the guard `tbFree` of rp_lmp_exact_pos_trailing_partial
         want = []
         for s in sp.split(" | "):
             pos, _, idx = s.strip().partition(":")
@@ -206,13 +208,12 @@ def check_states(ctx, ep, tmpdir, pool, helpers):
     for kind, states, _ in jobs:
         lines.append(f"rpf {'x-repaired' if kind == 'xyz' else 'l'} {len(states)} "
                      + " ".join("~" if s is None else hexs(s) for s in states))
-    alt = [f"rpf x-asIs {len(states)} " + " ".join("~" if s is None else hexs(s) for s in states)
-           for kind, states, _ in jobs if kind == "xyz"]
+    alt = [f"rpf {'x-asIs' if kind == 'xyz' else 'l-asIs'} {len(states)} "
+           + " ".join("~" if s is None else hexs(s) for s in states) for kind, states, _ in jobs]
     ans = ctx.driver(lines)
     ans_alt = iter(ctx.driver(alt)) if alt else iter(())
-    ndis = {"xyz": 0, "lmp": 0}
-    all_rep = all_asis = True
-    first = None
+    agree = {"xyz": [True, True], "lmp": [True, True]}     # [repaired everywhere, asIs everywhere]
+    first = {}
     for (kind, states, out), a in zip(jobs, ans):
         code = []
         for _before, res in out:
@@ -221,21 +222,17 @@ def check_states(ctx, ep, tmpdir, pool, helpers):
         ctx.count(1, branch=f"{kind}:states-vs-rpRun")
         ctx.distinct(("states", kind, tuple(states)))
         m = canon_model(a)
-        if kind == "xyz":
-            m2 = canon_model(next(ans_alt))
-            if code != m:
-                all_rep = False
-                first = first or (states, code, m)
-            if code != m2:
-                all_asis = False
-        elif code != m and ndis[kind] < 2:
-            ndis[kind] += 1
-            ctx.disagree({"fn": "lammpstrj_reader object on arbitrary file states vs rpRun",
-                          "states": [None if x is None else x.decode("utf-8", "replace") for x in states]}, code, m)
-    if not all_rep and not all_asis and first:
-        ctx.disagree({"fn": "xyz_reader object on arbitrary file states vs rpRun (neither variant)",
-                      "states": [None if x is None else x.decode("utf-8", "replace") for x in first[0]]},
-                     first[1], first[2])
+        m2 = canon_model(next(ans_alt))
+        if code != m:
+            agree[kind][0] = False
+            first.setdefault(kind, (states, code, m))
+        if code != m2:
+            agree[kind][1] = False
+    for kind in ("xyz", "lmp"):
+        if not any(agree[kind]) and kind in first:
+            ctx.disagree({"fn": f"{kind} reader object on arbitrary file states vs rpRun (neither variant)",
+                          "states": [None if x is None else x.decode("utf-8", "replace") for x in first[kind][0]]},
+                         first[kind][1], first[kind][2])
 
 
 # ----------------------------------------------------------------------------- B. TRR data layout
